@@ -33,6 +33,50 @@ theorem C06_log (E : ReEnv) (cfg : Serve.Cfg) (e : Serve.Entry) (w : Serve.World
   | none => rfl
   | some c => obtain ⟨fs, t, cx⟩ := c; simp
 
+/-- (1, a routing failure that is not a `ServiceError` — a `RouteSelector` of the application's own):
+    the model's log is the one `Spec.c06RouterErrorHolds` demands, the container filters around a
+    target that records nothing, through `Container.Dispatch` and `Container.ServeHTTP` alike -/
+theorem C06_router_error (cfg : Serve.Cfg) (viaServeHTTP : Bool) (w : Serve.World) (sr : Serve.SReq) :
+    Spec.c06RouterErrorHolds cfg (Spec.obsOf (Serve.serveRouterError cfg viaServeHTTP w sr)) = true := by
+  have hd : Serve.Chain.LogsAs (Serve.dispatchRouterError cfg)
+      (Spec.chainLog (Serve.label .cfilter cfg.cfilters) Serve.routerErrorTarget {}).1 := by
+    intro s0
+    exact Serve.Chain.chain_then_finish cfg _ _ _ s0
+  have hlog : ∃ r, Serve.Chain.AllRecover r ∧ (Serve.serveRouterError cfg viaServeHTTP w sr).log =
+      (Spec.chainLog (Serve.label .cfilter cfg.cfilters) Serve.routerErrorTarget {}).1 ++ r := by
+    have h0 : (Serve.initial sr).log = [] := rfl
+    cases viaServeHTTP with
+    | false =>
+      obtain ⟨r, hr1, hr2⟩ := hd (Serve.initial sr)
+      refine ⟨r.reverse, fun ev hev => hr1 ev (List.mem_reverse.mp hev), ?_⟩
+      show (Serve.dispatchRouterError cfg (Serve.initial sr)).1.log.reverse = _
+      rw [hr2, h0]
+      simp
+    | true =>
+      obtain ⟨r, hr1, hr2⟩ := Serve.Chain.serveWrapper_logsAs cfg sr _ _ hd (Serve.initial sr)
+      refine ⟨r.reverse, fun ev hev => hr1 ev (List.mem_reverse.mp hev), ?_⟩
+      show (Serve.serveWrapper cfg sr (Serve.initial sr) (Serve.dispatchRouterError cfg)).1.log.reverse = _
+      rw [hr2, h0]
+      simp
+  obtain ⟨r, hr1, hr2⟩ := hlog
+  unfold Spec.c06RouterErrorHolds
+  show ((Spec.userEvents false (Serve.serveRouterError cfg viaServeHTTP w sr).log).map Spec.blind ==
+    (Spec.userEvents false (Spec.chainLog (Serve.label .cfilter cfg.cfilters) Serve.routerErrorTarget {}).1).map Spec.blind) = true
+  rw [hr2, Serve.Chain.userEvents_append_recover false _ _ hr1]
+  simp
+
+/-- non-vacuity of `C06_router_error`: two container filters, the second stops; both start, the
+    first comes back, nothing else is recorded (and an observation without them falsifies the predicate) -/
+example :
+    let f1 : Serve.Filter := { id := 1, pre := [.write "a".toList], kind := .pass, post := [] }
+    let f2 : Serve.Filter := { id := 2, pre := [], kind := .stop, post := [] }
+    let cfg : Serve.Cfg := { routing := { router := .curly, services := [] }, cfilters := [f1, f2] }
+    let res := Serve.serveRouterError cfg false {} { req := { method := "GET".toList, path := "/x".toList } }
+    (res.log.map (fun ev => (ev.stage, ev.post)) ==
+        [(.cfilter 1, false), (.cfilter 2, false), (.cfilter 2, true), (.cfilter 1, true)]) = true ∧
+      Spec.c06RouterErrorHolds cfg { Spec.obsOf res with log := [] } = false := by
+  decide
+
 /-- (1′) the whole log, not only its user-code part: the events of the specified chain, in
     order, followed by nothing but events of the recover handler -/
 theorem C06_log_full (E : ReEnv) (cfg : Serve.Cfg) (e : Serve.Entry) (w : Serve.World) (sr : Serve.SReq) :
